@@ -687,8 +687,14 @@ func Main(p *Prop) {
 		verdict = "inconclusive"
 	}
 
+	cases := agg.Evaluations
+	if p.Units != "" && int(agg.Counts[p.Units]) > agg.Evaluations {
+		agg.Evaluations = int(agg.Counts[p.Units])
+	}
+
 	// ---- evidence
 	cov := map[string]any{
+		"cases":                                cases,
 		"inconclusive_cases_run_a_second_time": retried,
 		"evaluations":                          agg.Evaluations,
 		"distinct_nontrivial":                  len(agg.Sigs),
